@@ -32,6 +32,7 @@ import (
 	"sync"
 
 	"verif/harness/evid"
+	"verif/harness/filt"
 	"verif/harness/sbx"
 )
 
@@ -182,6 +183,20 @@ func main() {
 				}
 				addF(c)
 			}
+		}
+		// ---- class N (d): complete texts of pointer shape that are not pointers (negative size, bad oid ...)
+		for mi, mk := range filt.MalformedKinds {
+			if !run.Thorough() && (mi+round)%2 == 1 {
+				continue
+			}
+			k++
+			c := fcase{Kind: "N-c-ptrmalformed:" + mk, Size: len(filt.MalformedPointer(mk)), Wt: wts[(k+round)%3]}
+			if (mi/2+round)%2 == 0 {
+				c.Mode, c.Delivery = "oneshot", []string{"whole", "c7", "c1"}[(mi+round)%3]
+			} else {
+				c.Mode, c.Delivery = "process", []string{"pk100", "pk65516", "pk7"}[(mi+round)%3]
+			}
+			addF(c)
 		}
 		// ---- debatable spellings (not judged)
 		for di, dk := range dKinds {
